@@ -87,6 +87,18 @@ pub struct SummaryM {
     pub langs: Vec<u16>,
     pub template_set: bool,
     pub codepage: u32,
+    /// properties of a foreign file that the API has no accessor for
+    /// (id, type tag, text or number): they must survive a rewrite
+    pub extra: Vec<(u32, ExtraVal)>,
+}
+
+#[derive(Clone, Debug, PartialEq)]
+pub enum ExtraVal {
+    Str(String),
+    /// a string that some save could not represent: only its length survives
+    Lossy(usize),
+    /// any non-string value, rendered as `Type(value)`
+    Other(String),
 }
 
 pub fn field_idx(f: SumField) -> u8 {
@@ -227,8 +239,13 @@ pub fn col_is_plain(c: &ColSpec) -> bool {
             }
         }
         CType::Str(w) => {
-            if w > 255 || c.range.is_some() {
+            if w > 255 {
                 return false;
+            }
+            if let Some((a, b)) = c.range {
+                if a < -0x7fff_ffff || b < -0x7fff_ffff {
+                    return false;
+                }
             }
             if let Some(cat) = &c.category {
                 if category_ok(cat, "x").is_none() {
@@ -719,6 +736,13 @@ impl Model {
             if let SStr::Exact(s) = v {
                 if !crate::cp::representable(cp, s) {
                     *v = SStr::Lossy(s.chars().count());
+                }
+            }
+        }
+        for (_, e) in self.summary.extra.iter_mut() {
+            if let ExtraVal::Str(s) = e {
+                if !crate::cp::representable(cp, s) {
+                    *e = ExtraVal::Lossy(s.chars().count());
                 }
             }
         }
